@@ -133,11 +133,14 @@ def main(run):
             sid = 100000 + c["id"]
             items.append(coq_mcase(c, o["second"], init_dumps=dumps, cid=sid))
     mm = evaluate_multi(PID, items)
+    # the same multi-rule texts read by the reader model (Lang/Reader.v) inside Coq: its rules, in text order, must be the printer's
+    rmm, _ = evaluate_reader(PID, [coq_rcase(c["id"], c["text"], ("tree", c["rules_ast"])) for c, o in zip(cases, obs) if not o.get("compile")], shard=16)
+    mm += [(cid, 7) for cid, _ in rmm]
     run.log("(A) compared inside Coq: %d disagreement(s)" % len(mm))
     byid = {c["id"]: c for c in cases}
     ob = {o["id"]: o for o in obs}
     seen = set()
-    for cid, code in mm + [(i, 6) for i, _ in compile_fail]:
+    for cid, code in [m for m in mm if m[1] != 7] + [(i, 6) for i, _ in compile_fail]:
         base = cid - 100000 if cid >= 100000 else cid
         key = (code, cid >= 100000)
         if key in seen:
@@ -147,6 +150,7 @@ def main(run):
         run.report({"kind": "lang-multi", "symptom": SYMPTOM_L[code], "second_call": cid >= 100000},
                    {"text": c["text"], "inject": c["inject"], "observation": {k: (o["second"] if cid >= 100000 else o).get(k) for k in ("class", "results", "cites", "calls")}, "disagreement": LCODES[code]},
                    "C15: %s%s — %s" % (LCODES[code], " (second call on the same engine)" if cid >= 100000 else "", c["text"].replace("\n", " | ")[:400]))
+    report_reader(run, PID, mm, lambda i: byid[i]["text"])
     # (B)
     scs = pool_scenarios(rng, run.tier)
     pobs = poolfam.run_pool([poolfam.strip(s) for s in scs])
